@@ -9,6 +9,7 @@ from ..runner import Scn, verdict, sha, Vacuous
 from . import c03
 
 ID = 'C04'
+DECORATE = True
 LEVEL = 'model_checking'
 RULE = ('E1 enumeration of (object, rigid motion, card spelling): objects = planes, sphere, cylinders, '
         'one- and two-sheet cones, circular/elliptic tori, GQ, SQ, and every macrobody kind (RPP, RCC, BOX, SPH, RHP, REC, TRC, ELL, WED, ARB; facets referenced too); motions = 2 displacements x '
